@@ -268,6 +268,9 @@ def canon_basis(basis, th2, d):
     return emaps, cells, coeffs, jmaps
 
 
+_KAKN = [0]
+
+
 def run_case(w, group, spec, th2=None, cs=(Fraction(1), Fraction(0)), exact=True):
     """Run the implementation on build_gate(spec); write the Coq case and the JSON case."""
     g = build_gate(spec)
@@ -299,6 +302,9 @@ def run_case(w, group, spec, th2=None, cs=(Fraction(1), Fraction(0)), exact=True
     assert '"' not in name
     coq_case = (Raw(f'"{name}"'), (isg, nq, pok, mok), (Fraction(cs[0]), Fraction(cs[1])), wl, okak, exp)
     jcase = dict(kind="basis", gate=spec, name=name, flags=[isg, nq, pok, mok], th2=th2, impl=impl)
+    if group.startswith("kak"):   # 58-term cases are the expensive ones for coqc: spread them over shards
+        _KAKN[0] += 1
+        group = f"{group}-{_KAKN[0] % 6}"
     w.add(group, "chk_basis", coq_case, jcase, nontrivial=(r[0] == "ok"))
     w.count("basis.outcome", r[0])
     w.count("basis.name", name)
